@@ -304,6 +304,7 @@ func (e *c15Env) request(ev *c15Event, kind, when string) *c15Req {
 func c15Run(c *core.Ctx, b core.Batch) {
 	var p c15Params
 	json.Unmarshal(b.Params, &p)
+	defer checkPredefinedErrors(c, "C15")
 	switch p.Kind {
 	case "failsub":
 		c15ActiveAtShutdown(c) // first: it counts listener goroutines in a process that has had no other query events
